@@ -89,7 +89,8 @@ type universe struct {
 	head   *types.Block                   // head the pool is known to have processed
 	states map[common.Hash]*state.StateDB
 
-	recent []string // last operations, for violation details
+	recent  []string        // last operations, for violation details
+	prevBad map[string]bool // state-clause violations present in the previously checked snapshot
 	opName string
 }
 
